@@ -16,6 +16,7 @@ Correspondence (2): the recognisers of the model against Python's `re`
 import json
 import os
 import re
+import time
 from fractions import Fraction
 
 import lib
@@ -55,6 +56,7 @@ def gen_word(rng):
 
 
 _bait = {'on': False}
+_stats = {}
 
 
 def gen_prefix(rng):
@@ -93,6 +95,38 @@ ALL_SHAPES = ['int', 'dec', 'dot', 'ldot', 'exp']
 INNER_SEPARATORS = da.INNER_SEPARATORS
 
 
+# Lines that are failure markers for *other* adapters only: each adapter has its own private
+# error expressions (adapter.py check_for_error: the three common ones plus `_other_error_definitions`
+# of the instance). For the adapter in use such a line is unrelated output and contributes nothing.
+MARKER_PHRASES = {
+    'error': ['no errors found', 'errors and warnings none', 'stderr', 'terror'],
+    'incorrect': ['incorrect', 'nothing incorrect here'],
+    'npb.partial': ['Failed the verification', 'Failed verification'],
+    'npb.invalid': ['Benchmark done verification failed'],
+}
+OWN_MARKERS = {
+    'ReBenchLog': ['incorrect', 'npb.partial', 'npb.invalid'],
+    'ValidationLog': ['incorrect', 'npb.partial', 'npb.invalid'],
+    'PlainSecondsLog': ['incorrect', 'npb.partial', 'npb.invalid', 'error'],
+    'SavinaLog': [], 'JMH': [], 'TimeFormatted': [], 'TimeP': [],
+}
+
+
+def foreign_marker_lines(adapter):
+    """phrases matching only error expressions that belong to other adapters"""
+    import re as _re
+    pats = da.search_patterns()
+    own = [pats[k] for k in OWN_MARKERS[adapter]] + [pats['Error'], pats['Segmentation fault'], pats['Bus error']]
+    out = []
+    for k, phrases in MARKER_PHRASES.items():
+        if k in OWN_MARKERS[adapter]:
+            continue
+        for ph in phrases:
+            if pats[k].search(ph) and not any(o.search(ph) for o in own):
+                out.append(ph)
+    return out
+
+
 def gen_noise(rng, adapter=None):
     """a line in no format.  With an adapter: sometimes a line that has, after some words and a
     separator other than LF *inside* it, text that would be a format line on its own (a progress
@@ -102,6 +136,11 @@ def gen_noise(rng, adapter=None):
     if r < 0.15:
         return ''
     words = ' '.join(rng.choice(NOISE_WORDS) for _ in range(rng.randint(1, 6)))
+    if adapter is not None and 0.15 <= r < 0.3:
+        foreign = foreign_marker_lines(adapter)
+        if foreign:
+            _stats['foreign-marker-noise'] = _stats.get('foreign-marker-noise', 0) + 1
+            return rng.choice([words + ' ', '']) + rng.choice(foreign) + rng.choice(['', ' ' + words])
     if adapter is not None and r > 0.7:
         _bait['on'] = True
         try:
@@ -334,13 +373,48 @@ def field_diff(got, expected, exact, ulps):
     return None
 
 
+IMPL_BUDGET = {'spent': 0.0, 'cap': None, 'exceeded': False, 'skipped': 0}
+
+
+def check_history(ck):
+    """state leak between adapters: what an adapter returns for a text must not depend on which
+    adapters were instantiated and used before in the same process. Run before anything else has
+    touched the adapters: every adapter parses texts (with noise that is a failure marker for other
+    adapters only) in a random order, and once more after all the others were used."""
+    order = list(da.ADAPTERS)
+    ck.rng.shuffle(order)
+    first = []
+    for a in order:
+        for _ in range(4):
+            c = gen_case(ck.rng, a)
+            first.append((c, da.impl_parse(a, c['text'], False, c['inv'])))
+    ck.rng.shuffle(first)
+    for c, r1 in first:
+        r2 = da.impl_parse(c['adapter'], c['text'], False, c['inv'])
+        ck.count('history:reparsed-after-other-adapters')
+        if da.jsonable(r1) != da.jsonable(r2):
+            ck.oracle_fail('history_independent',
+                           {'kind': 'roundtrip', 'adapter': c['adapter'], 'text': c['text'], 'inv': c['inv'], 'eol': c['eol'],
+                            'expected': ser_expected(c['expected']), 'exact': c['exact'], 'history': order},
+                           {'first': da.jsonable(r1), 'after_other_adapters': da.jsonable(r2)},
+                           {'adapter': c['adapter'], 'clause': 'history_independent'})
+    return [c for c, _ in first]
+
+
 def check_roundtrip(ck, cases):
     ops = [{'op': 'c05.parse', 'adapter': c['adapter'], 'text': c['text'], 'faulty': False, 'inv': c['inv']} for c in cases]
     answers = da.model_parallel(ck, ops)
     for c, ans in zip(cases, answers):
         inp = {'kind': 'roundtrip', 'adapter': c['adapter'], 'text': c['text'], 'inv': c['inv'], 'eol': c['eol'],
                'expected': ser_expected(c['expected']), 'exact': c['exact']}
+        if IMPL_BUDGET['exceeded']:
+            IMPL_BUDGET['skipped'] += 1
+            continue
+        _t0 = time.time()
         impl = da.impl_parse(c['adapter'], c['text'], False, c['inv'])
+        IMPL_BUDGET['spent'] += time.time() - _t0
+        if IMPL_BUDGET['cap'] is not None and IMPL_BUDGET['spent'] > IMPL_BUDGET['cap']:
+            IMPL_BUDGET['exceeded'] = True
         model = da.model_obs(ans)
         ulps = 3 if c['adapter'] == 'TimeP' else 1
         ck.count('rt:%s' % c['adapter'])
@@ -591,13 +665,28 @@ def run(ck):
         'ReBenchLog benchmark names are any non-space text not ending in a colon; prefixes end in ": "; criteria of '
         'extra-criterion lines contain no ":" and no "="; noise lines contain no colon, digit or marker word',
     ]
-    cases = [from_stored(c) for c in corpus_cases()]
+    # the implementation's share of the run is bounded: a change that makes parsing much slower must not
+    # push the check past its budget unnoticed (normal: ~2 s quick, ~60 s thorough)
+    IMPL_BUDGET.update(spent=0.0, cap=40.0 if quick else 600.0, exceeded=False, skipped=0)
+    hist = check_history(ck)
+    cases = [from_stored(c) for c in corpus_cases()] + hist
     per = 300 if quick else 10000
+    gen = []
     for a in da.ADAPTERS:
         for _ in range(per):
-            cases.append(gen_case(ck.rng, a))
+            gen.append(gen_case(ck.rng, a))
+    # adapters interleave: every parse happens after a different history of adapter uses
+    ck.rng.shuffle(gen)
+    cases += gen
     for i in range(0, len(cases), 14000):
         check_roundtrip(ck, cases[i:i + 14000])
+    ck.count('noise:foreign-marker-lines', _stats.get('foreign-marker-noise', 0))
+    if IMPL_BUDGET['exceeded']:
+        msg = ('the implementation used more than %.0f s of parse time (normally a few seconds): %d of %d '
+               'round-trip cases were not evaluated' % (IMPL_BUDGET['cap'], IMPL_BUDGET['skipped'], len(cases)))
+        ck.notes.append('BUDGET: ' + msg)
+        ck.count('budget-exceeded:cases-skipped', IMPL_BUDGET['skipped'])
+        print('BUDGET property=C05 ' + msg)
     check_recognisers(ck, 2000 if quick else 100000)
     session_cases(ck, 12 if quick else 200)
 
